@@ -13,7 +13,9 @@
     Close         lock; [closed ? — : closed := true; taken := conns; conns := nil]; unlock; close every taken conn
     HandleError c lock; [closed ? — : remove c]; unlock
     Pick / Size   lock; read; unlock
-    connect tail  lock; [closed ? conn.Close()  ← UNDER THE LOCK (connectionpool.go:590) : append]; unlock
+    connect tail  lock; [closed ? unlock; conn.Close() : append; unlock]
+                  (since the repair of KF-C06-1, props/C06.fix-KF-C06-1.diff; before it the connection was closed
+                   UNDER the lock: `pConnectTailOld`, kept for the regression counterexample only)
 
   `cerr c` = the transport of connection c reports an error from Close (static, chosen by the environment).
   RLock is modelled as Lock (more blocking, never less).
@@ -27,9 +29,10 @@ inductive Instr where
   | connClose (c : Nat)      -- Conn.Close(): closeWithError(nil)
   | connError (c : Nat)      -- closeWithError(err ≠ nil) (receive loop / writer / heartbeat of connection c)
   | heBody (c : Nat)         -- under the lock: `if closed {return}; remove c`
-  | connectBody (c : Nat)    -- under the lock: `if closed { conn.Close(); return }; conns = append(conns, c)`
+  | connectBody (c : Nat)    -- connect() BEFORE the repair of KF-C06-1, under the lock (unlock deferred):
+                             -- `if closed { conn.Close(); return }; conns = append(conns, c)`
   | read                     -- Pick / Size
-  | connectBodyU (c : Nat)   -- the tail of connect() as REPAIRED by props/C06.fix-KF-C06-1.diff (not the code that exists):
+  | connectBodyU (c : Nat)   -- the tail of connect() (connectionpool.go, since the repair of KF-C06-1):
                              -- `if closed { Unlock(); conn.Close(); return }; conns = append(conns, c); Unlock()`
 deriving DecidableEq, Repr
 
@@ -47,11 +50,34 @@ def upd {α} (f : Nat → α) (k : Nat) (v : α) : Nat → α := fun x => if x =
 def pClose : List Instr := [.lock, .poolCloseBody, .unlock, .closeTaken]
 def pHandleError (c : Nat) : List Instr := [.lock, .heBody c, .unlock]
 def pPick : List Instr := [.lock, .read, .unlock]
-def pConnectTail (c : Nat) : List Instr := [.lock, .connectBody c, .unlock]
-/-- the tail of connect() with props/C06.fix-KF-C06-1.diff applied -/
-def pConnectTailFixed (c : Nat) : List Instr := [.lock, .connectBodyU c]
+/-- the tail of hostConnPool.connect(): `pool.mu.Lock(); if pool.closed { Unlock(); conn.Close(); return }; append; Unlock()` -/
+def pConnectTail (c : Nat) : List Instr := [.lock, .connectBodyU c]
+/-- the tail of connect() as it was BEFORE the repair of KF-C06-1 (`defer pool.mu.Unlock()`, the late connection
+    closed under the lock) - NOT the code that exists any more; regression counterexample only -/
+def pConnectTailOld (c : Nat) : List Instr := [.lock, .connectBody c, .unlock]
 /-- hostConnPool.Close of seeded change C06-6 (NOT the code that exists): `defer Unlock`, connections closed in place -/
 def pCloseHoldingLock : List Instr := [.lock, .poolCloseBody, .closeTaken, .unlock]
+
+/-- what a goroutine can do to a host pool and its connections: the pool's methods and the two ways a connection is closed -/
+inductive Meth where
+  | close                    -- hostConnPool.Close
+  | handleError (c : Nat)    -- hostConnPool.HandleError(c, err, true)
+  | pick                     -- Pick / Size
+  | connClose (c : Nat)      -- Conn.Close()
+  | connError (c : Nat)      -- closeWithError(err) from the receive loop / writer / heartbeat of connection c
+  | connectTail (c : Nat)    -- the tail of hostConnPool.connect() for the freshly dialled connection c
+deriving DecidableEq, Repr
+
+def Meth.prog : Meth → List Instr
+  | .close => pClose
+  | .handleError c => pHandleError c
+  | .pick => pPick
+  | .connClose c => [.connClose c]
+  | .connError c => [.connError c]
+  | .connectTail c => pConnectTail c
+
+/-- the program of a goroutine that calls these methods one after the other -/
+def progOf (ms : List Meth) : List Instr := ms.flatMap Meth.prog
 
 /-- thread `t` executes its next instruction (none: it has finished, or it is blocked on the lock) -/
 def step (cerr : Nat → Bool) (st : St) (t : Nat) : Option St :=
